@@ -41,6 +41,7 @@ func (mltp MaskedLinearTransformationProtocol) ShallowCopy() MaskedLinearTransfo
 	return MaskedLinearTransformationProtocol{
 		e2s:          mltp.e2s.ShallowCopy(),
 		s2e:          mltp.s2e.ShallowCopy(),
+		noise:        mltp.noise,
 		prec:         mltp.prec,
 		defaultScale: mltp.defaultScale,
 		mask:         mask,
